@@ -988,7 +988,12 @@ class VM:
 
                 # Create prototype object for the function
                 # In JavaScript, every function has a prototype property
+                # It is an ordinary object: Object.prototype is on its chain,
+                # and so on the chain of everything `new` makes from it
                 prototype = JSObject()
+                object_constructor = self.globals.get("Object")
+                if object_constructor and hasattr(object_constructor, "_prototype"):
+                    prototype._prototype = object_constructor._prototype
                 prototype.set("constructor", js_func)
                 js_func._prototype = prototype
 
